@@ -124,8 +124,11 @@ Definition valid_len (es : list entry) : N :=
   fold_left (fun acc e => acc + entry_size e) es 0.
 
 (* entries.last().map(|e| e.seq) *)
-Definition last_seq (es : list entry) : option N :=
-  fold_left (fun _ e => Some (e_seq e)) es None.
+Fixpoint last_seq (es : list entry) : option N :=
+  match es with
+  | [] => None
+  | e :: r => match last_seq r with Some s => Some s | None => Some (e_seq e) end
+  end.
 
 (* ---------- the directory ---------- *)
 Definition segs := list (N * bytes).
@@ -151,8 +154,11 @@ Definition seg_touch (id : N) (l : segs) : segs :=
 Definition seg_append (id : N) (data : bytes) (l : segs) : segs :=
   match seg_get id l with Some b => seg_put id (b ++ data) l | None => l end.
 
-Definition last_id (l : segs) : option N :=
-  fold_left (fun _ p => Some (fst p)) l None.
+Fixpoint last_id (l : segs) : option N :=
+  match l with
+  | [] => None
+  | p :: r => match last_id r with Some i => Some i | None => Some (fst p) end
+  end.
 
 (* last_sequence_in_segments: newest segment first, the first one that has a
    valid entry decides *)
@@ -381,17 +387,22 @@ Fixpoint hist_ok (st : state) (h : list op) : bool :=
   end.
 
 (* ---------- what the history theorems talk about ---------- *)
-(* the entries that were written completely, in order *)
-Definition complete_of (evs : list event) : list entry :=
-  flat_map (fun ev =>
-    match ev with
-    | EvAck s pl _ => [mkEntry s 0 pl]
-    | EvTorn s pl keep _ => if keep =? WAL_HEADER_LEN + lenN pl then [mkEntry s 0 pl] else []
-    | _ => []
-    end) evs.
+(* the entry an event wrote completely, if any *)
+Definition complete_ev (ev : event) : list entry :=
+  match ev with
+  | EvAck s pl _ => [mkEntry s 0 pl]
+  | EvTorn s pl keep _ => if keep =? WAL_HEADER_LEN + lenN pl then [mkEntry s 0 pl] else []
+  | _ => []
+  end.
 
-Definition max_trunc (evs : list event) : N :=
-  fold_left (fun m ev => match ev with EvTrunc b => N.max m b | _ => m end) evs 0.
+(* the entries that were written completely, in order *)
+Definition complete_of (evs : list event) : list entry := flat_map complete_ev evs.
+
+Definition trunc_step (m : N) (ev : event) : N :=
+  match ev with EvTrunc b => N.max m b | _ => m end.
+
+(* the largest bound ever passed to truncate_before *)
+Definition max_trunc (evs : list event) : N := fold_left trunc_step evs 0.
 
 (* sequence number handed out by an event, with the flushed mark on disk then *)
 Definition assigned (ev : event) : option (N * N) :=
@@ -404,16 +415,29 @@ Definition assigned (ev : event) : option (N * N) :=
 (* everything a new sequence number has to exceed: acknowledged numbers,
    numbers of completely written entries, completely persisted flushed marks,
    and every flushed mark seen on disk by open or append *)
-Definition watermark (evs : list event) : N :=
-  fold_left (fun m ev =>
-    match ev with
-    | EvAck s _ fl => N.max m (N.max s fl)
-    | EvTorn s pl keep fl =>
-        N.max m (if keep =? WAL_HEADER_LEN + lenN pl then N.max s fl else fl)
-    | EvPersist x keep => if keep =? WAL_FLUSHED_LEN then N.max m x else m
-    | EvOpen _ fl => N.max m fl
-    | _ => m
-    end) evs 0.
+Definition wm_step (m : N) (ev : event) : N :=
+  match ev with
+  | EvAck s _ fl => N.max m (N.max s fl)
+  | EvTorn s pl keep fl =>
+      N.max m (if keep =? WAL_HEADER_LEN + lenN pl then N.max s fl else fl)
+  | EvPersist x keep => if keep =? WAL_FLUSHED_LEN then N.max m x else m
+  | EvOpen _ fl => N.max m fl
+  | _ => m
+  end.
+
+Definition watermark (evs : list event) : N := fold_left wm_step evs 0.
+
+(* no sequence number is handed out at or below the watermark of the events
+   before it, nor at or below the flushed mark on disk at that moment *)
+Fixpoint regress_free (seen : list event) (evs : list event) : Prop :=
+  match evs with
+  | [] => True
+  | ev :: r =>
+    match assigned ev with
+    | Some (s, fl) => watermark seen < s /\ fl < s
+    | None => True
+    end /\ regress_free (seen ++ [ev]) r
+  end.
 
 (* ---------- the ingester's call sites (src/ingester/mod.rs) ---------- *)
 (* ensure_wal: load_flushed_seq; open; read_entries_after(flushed);
